@@ -16,8 +16,9 @@
       [Cur]  what the code does today: at end-of-stream with open parentheses the balancing loop
              keeps reading 0 bytes forever (solver.rs:258-261), and the error message is cut out with
              the slice [start .. len-start-1] (solver.rs:267);
-      [Fix]  the repaired reader: end-of-stream inside the loop is an error (SolverDead) and the
-             message is the text between the first and the last double quote.
+      [Fix]  the repaired reader (/repo a1319b1, acef723, acfb001): end-of-stream inside the loop is an
+             error (SolverDead), the message is the text between the first and the last double quote,
+             and parentheses inside string literals / quoted symbols do not count.
 
     Strings are byte strings (Coq [string] = list of 8-bit [ascii]); Rust's [&str] slicing is by byte
     index and panics off a UTF-8 character boundary, which [is_char_boundary] reproduces.
@@ -50,6 +51,24 @@ Fixpoint count_parens (s : string) : Z :=
   | EmptyString => 0%Z
   | String c r => ((if is_open c then 1 else if is_close c then (-1) else 0) + count_parens r)%Z
   end.
+
+Definition is_bar (c : ascii) : bool := nat_of_ascii c =? 124.
+
+(** smt/parser.rs [count_parens] AFTER the repair (/repo acfb001): parentheses inside string literals
+    (".." - a quote toggles, so the SMT-LIB escape "" inside a literal is handled) and inside quoted
+    symbols (|..|) do not count.  [in_string]/[in_quoted] is the scanner state. *)
+Fixpoint count_aware_from (in_string in_quoted : bool) (s : string) : Z :=
+  match s with
+  | EmptyString => 0%Z
+  | String c r =>
+      if is_quote c && negb in_quoted then count_aware_from (negb in_string) in_quoted r
+      else if is_bar c && negb in_string then count_aware_from in_string (negb in_quoted) r
+      else if is_open c && negb in_string && negb in_quoted then (1 + count_aware_from in_string in_quoted r)%Z
+      else if is_close c && negb in_string && negb in_quoted then ((-1) + count_aware_from in_string in_quoted r)%Z
+      else count_aware_from in_string in_quoted r
+  end.
+
+Definition count_parens_aware (s : string) : Z := count_aware_from false false s.
 
 Fixpoint trim_start (s : string) : string :=
   match s with
@@ -179,13 +198,18 @@ Arguments Ok {A}. Arguments Err {A}. Arguments Panic {A}. Arguments Blocked {A}.
 
 Inductive variant := Cur | Fix.
 
+(** which parenthesis count the reader uses: the original code the naive one, the repaired code the
+    string-aware one *)
+Definition count_v (v : variant) (s : string) : Z :=
+  match v with Cur => count_parens s | Fix => count_parens_aware s end.
+
 (* ------------------------------------------------------------------ read_response *)
 
 (** solver.rs:258-261
       while count_parens(&self.response) > 0 { self.response.push(' '); self.stdout.read_line(..)?; }
     [Fix]: `if read_line(..)? == 0 { return Err(SolverDead) }`. *)
 Fixpoint rr_loop (v : variant) (fuel : nat) (resp : string) (w : world) : res string :=
-  if (0 <? count_parens resp)%Z then
+  if (0 <? count_v v resp)%Z then
     match fuel with
     | O => OutOfFuel
     | S f =>
